@@ -675,6 +675,29 @@ fn window_case(big_share: u32) -> impl Strategy<Value = WindowCase> {
     })
 }
 
+/// Windows over filtered multi-chunk scans: the graph always has more than 2048 nodes (mostly several
+/// chunks), a predicate is nearly always present (so the chunks that reach SKIP / LIMIT carry a selection
+/// vector and hold fewer rows than their physical size), and the bounds sit around the chunk size and
+/// anywhere below the graph size -- a limit larger than what the first chunk contributes but smaller
+/// than the result is the common case here and rare in `window_case`.
+fn window_case_multichunk() -> impl Strategy<Value = WindowCase> {
+    let langs = prop_oneof![3 => Just(Lang::Cypher), 3 => Just(Lang::Gql), 2 => Just(Lang::Sparql), 2 => Just(Lang::Gremlin), 1 => Just(Lang::GraphQL)];
+    let n = prop_oneof![2 => 2049u32..2060, 1 => Just(4096u32), 1 => Just(4097u32), 3 => 2500u32..6500];
+    ((n, any::<u32>()).prop_map(|(n, seed)| GraphSpec::Big { n, seed }), langs).prop_flat_map(|(graph, lang)| {
+        let len = graph.len() as u32;
+        let b = move || prop_oneof![2 => prop_oneof![Just(2047u32), Just(2048), Just(2049)], 1 => prop_oneof![Just(1u32), Just(2), Just(len - 1)], 3 => 1u32..len];
+        (
+            prop_oneof![1 => Just(None), 6 => opt_pred(lang, Base::Scan)],
+            prop_oneof![3 => Just(None), 1 => b().prop_map(Some)],
+            prop_oneof![1 => Just(None), 6 => b().prop_map(Some)],
+            any::<bool>(),
+            if lang == Lang::GraphQL { Just(false).boxed() } else { prop_oneof![1 => Just(true), 2 => Just(false)].boxed() },
+            prop_oneof![3 => Just(true), 1 => Just(false)],
+        )
+            .prop_map(move |(pred, skip, limit, desc, ordered, ret_node)| WindowCase { graph: graph.clone(), lang, pred, skip, limit, desc, ordered, ret_node })
+    })
+}
+
 fn window_queries(c: &WindowCase, f: &Filtered) -> Option<(String, String)> {
     let (s, n) = (c.skip, c.limit);
     Some(match c.lang {
@@ -968,5 +991,6 @@ pub fn run(r: &mut Run) {
     r.subcheck("count", r.cases(250, 4_000), || count_case(big + 4), check_count);
     r.subcheck("distinct", r.cases(250, 4_000), || distinct_case(big + 4), check_distinct);
     r.subcheck("window", r.cases(1200, 12_000), || window_case(35), check_window);
+    r.subcheck("window_multichunk", r.cases(500, 8_000), window_case_multichunk, check_window);
     r.subcheck("union", r.cases(200, 3_000), || union_case(big + 4), check_union);
 }
